@@ -92,7 +92,10 @@ func (lineParser *LineParser) parseMarkup() (*ParseResult, error) {
 					return nil, fmt.Errorf("failed to process replacement marker: %w", err)
 				}
 
-				builder.WriteString(replacementText)
+				// like the rest of the text (which is read rune by rune), replacement text must be valid UTF-8:
+				// fragments of a multi-byte character copied raw from several markers could else merge
+				// later on, which makes the character count of the text - hence positions - decrease
+				builder.WriteString(strings.ToValidUTF8(replacementText, string(utf8.RuneError)))
 			}
 
 			trimWhitespaceIfAble := false
